@@ -1213,17 +1213,20 @@ class SmtLibParser(object):
         self.cache.update(self.env.type_manager._custom_types_decl)
         tokens = Tokenizer(script, interactive=self.interactive)
         res = []
-        self.consume_opening(tokens, "<main>")
-        current = tokens.consume()
-        while current != ")":
-            if current != "(":
-                raise PysmtSyntaxError("'(' expected", tokens.pos_info)
-            vname = self.get_expression(tokens)
-            expr = self.get_expression(tokens)
-            self.consume_closing(tokens, current)
-            res.append((vname, expr))
+        try:
+            self.consume_opening(tokens, "<main>")
             current = tokens.consume()
-        self.cache.unbind_all(symbols)
+            while current != ")":
+                if current != "(":
+                    raise PysmtSyntaxError("'(' expected", tokens.pos_info)
+                vname = self.get_expression(tokens)
+                expr = self.get_expression(tokens)
+                self.consume_closing(tokens, current)
+                res.append((vname, expr))
+                current = tokens.consume()
+        finally:
+            # Also a malformed answer must not leave the symbols bound
+            self.cache.unbind_all(symbols)
         return res
 
     def get_command(self, tokens: Tokenizer) -> Iterator[SmtLibCommand]:
